@@ -200,6 +200,8 @@ func rootAction(c *cli.Context) (err error) {
 	if err != nil {
 		return err
 	}
+	// contexts are taken down once, at shutdown, whatever the outcome of the targets
+	defer taskRunner.Finish()
 
 	targets := c.Args().Slice()
 	if len(targets) > 0 {
